@@ -77,6 +77,26 @@ func (m *C01) check(w *eng.World, s *snap.Snap, where string) {
 		}
 		m.amountOK(w, where, fmt.Sprintf("sell order %d quantity", o.Id), o.Quantity, s.PrecisionOfBatch(b))
 	}
+	// the same invariants inside a transaction with little gas left (x/crisis MsgVerifyInvariant): running out of
+	// gas aborts the transaction, it must never turn into the verdict "broken"
+	if w.StepIdx%5 == 0 {
+		brokenAnyway := false
+		for _, ir := range w.C.RunInvariants() {
+			if ir.Route == "batch-supply" && ir.Broken {
+				brokenAnyway = true // judged below, with unlimited gas
+			}
+		}
+		for _, lim := range []uint64{3000, 20000, 90000} {
+			if brokenAnyway {
+				break
+			}
+			for _, ir := range w.C.RunInvariantsGas(lim) {
+				if ir.Route == "batch-supply" && ir.Broken {
+					w.Violation("C01", "registered-invariant-broken-under-gas-limit", "%s: with %d gas the registered invariant %s/%s reports: %s (panic=%v)", where, lim, ir.Module, ir.Route, ir.Msg, ir.Panic)
+				}
+			}
+		}
+	}
 	for _, ir := range w.C.RunInvariants() {
 		if ir.Route == "batch-supply" && ir.Broken {
 			w.Violation("C01", "registered-invariant-broken", "%s: registered invariant %s/%s reports: %s (panic=%v)", where, ir.Module, ir.Route, ir.Msg, ir.Panic)
